@@ -60,6 +60,9 @@ fn guard_trip(size: usize, delta: usize, limit: usize) -> ! {
     put_str(&mut buf, &mut p, b"}}\n");
     unsafe {
         write(OUT_FD.load(Relaxed), buf.as_ptr(), p);
+        #[cfg(miri)]
+        std::process::exit(86);
+        #[cfg(not(miri))]
         _exit(86)
     }
 }
